@@ -84,6 +84,12 @@ def main():
     cases = []
     for k in range(rounds):
         cases += mod.cases(a.tier, a.seed + 1000003 * k)
+    if a.tier == "thorough" and not a.replay:
+        # a budget-bound thorough run stops at its deadline: visit the case grid in a (seed-determined) shuffled order so that the
+        # cut samples every workload family instead of dropping whatever the check lists last
+        import random as _random
+
+        _random.Random(a.seed * 7919 + 13).shuffle(cases)
 
     if a.shard:
         i, n = map(int, a.shard.split("/"))
